@@ -651,6 +651,7 @@ fn close(a: f64, b: f64) -> bool {
 /// One proposed update on `g`; emits the case. Returns false if the sampler is unusable (panic).
 fn observe(g: &mut G, rng: &Shared, m: &Model, stats: &mut std::collections::BTreeMap<String, u64>) -> bool {
     let before = snap(g);
+    let g_before = g.clone();
     rng.free();
     let _ = take_trace();
     let res = catch(std::panic::AssertUnwindSafe(|| g.single_rvb_sweep(Some(1))));
@@ -672,36 +673,7 @@ fn observe(g: &mut G, rng: &Shared, m: &Model, stats: &mut std::collections::BTr
     let (succ, _) = res.unwrap();
     let t = &tr[0];
     let after = snap(g);
-    // The hook records `cluster_starting_state` *after* calculate_flip_prob has swept it; when the
-    // sweep stopped early (`mult < EPSILON => break`) that is the membership at the break, not at
-    // p = 0. Reconstruct: undo the first i toggles and keep the i for which the running product
-    // (evaluated on the real weights) first drops below EPSILON after exactly i toggles.
-    let mut reg = reg_of(t);
-    if t.p_to_flip < f64::EPSILON {
-        let traced = reg.clone();
-        let mut found = None;
-        for i in 0..=traced.toggles.len() {
-            let mut cand = traced.clone();
-            for p in &traced.toggles[..i] {
-                if let Some(Some(o)) = before.slots.get(*p) {
-                    if let Some(sv) = cand.subvars.iter().position(|v| *v == o.vars[0]) {
-                        cand.start[sv] = !cand.start[sv];
-                    }
-                }
-            }
-            let d = dense(g, m, &before, &before, &cand);
-            if d.bad.is_none() && d.break_after_toggles == Some(i) && growth_plausible(&before, &cand, m.nvars, &log, 1).is_ok() {
-                found = Some((i, cand));
-                break;
-            }
-        }
-        if let Some((i, cand)) = found {
-            if i > 0 {
-                *stats.entry("rvb_region_reconstructed_after_early_break".into()).or_insert(0) += 1;
-            }
-            reg = cand;
-        }
-    }
+    let reg = reg_of(t);
     let mut fails: Vec<String> = vec![];
     if tr.len() != 1 {
         fails.push(format!("{} traces for one update", tr.len()));
@@ -741,8 +713,44 @@ fn observe(g: &mut G, rng: &Shared, m: &Model, stats: &mut std::collections::BTr
     if !d.outside_same {
         fails.push("an operator outside the traced region changed".into());
     }
-    // acceptance formula on the real weights: p = Π W_aft/W_bef · Π ising ratios
-    let expect_p = d.q * d.r;
+    // acceptance formula on the real weights: p = Π W_aft/W_bef · Π ising ratios, or exactly 0 when
+    // the running product underflows f64::EPSILON on the way (the sweep is abandoned: F19)
+    let expect_p = if d.break_after_toggles.is_some() { 0.0 } else { d.q * d.r };
+    if d.break_after_toggles.is_some() {
+        *stats.entry("rvb_underflow_proposals".into()).or_insert(0) += 1;
+        if d.q * d.r > 0.0 {
+            *stats.entry("rvb_underflow_proposals_nonzero_product".into()).or_insert(0) += 1;
+        }
+        if t.p_to_flip != 0.0 {
+            fails.push(format!("F19: the running product underflowed EPSILON but p_to_flip = {:e} (not 0): a half-swept membership can reach mutate_graph", t.p_to_flip));
+        }
+    }
+    // F19 regression: a proposal below EPSILON must be rejected even when the accept word is 0
+    if t.p_to_flip < f64::EPSILON && !log.is_empty() {
+        let mut script = log.clone();
+        *script.last_mut().unwrap() = 0;
+        let mut g0 = g_before.clone();
+        rng.script(&script);
+        let r0 = catch(std::panic::AssertUnwindSafe(|| g0.single_rvb_sweep(Some(1))));
+        let used = rng.log().len();
+        rng.free();
+        let tr0 = take_trace();
+        match r0 {
+            Err(msg) => fails.push(format!("F19: with the accept word forced to 0 the update panicked: {}", msg)),
+            Ok(_) => {
+                let acc0 = tr0.get(0).map(|t| t.accepted).unwrap_or(false);
+                if t.p_to_flip == 0.0 || d.break_after_toggles.is_some() {
+                    if acc0 || snap(&g0) != before {
+                        fails.push("F19: a proposal of probability 0 / underflowed product was applied when the accept word is 0".into());
+                    }
+                    if used != log.len() {
+                        fails.push(format!("forced-reject re-run drew {} words instead of {}", used, log.len()));
+                    }
+                    *stats.entry("rvb_forced_word0_rejected".into()).or_insert(0) += 1;
+                }
+            }
+        }
+    }
     if !close(t.p_to_flip, expect_p) {
         fails.push(format!("p_to_flip {} but Π(W_aft/W_bef)·Π(ising) on the real weights = {}", t.p_to_flip, expect_p));
     }
@@ -820,7 +828,7 @@ fn models(g: &mut SplitMix64, thorough: bool) -> Vec<Model> {
     let gammas = [0.5, 1.0, 2.0];
     let hs = [0.0, 0.0, 0.5, -1.0];
     let betas = [0.5, 1.0, 2.0, 4.0];
-    let reps = if thorough { 6 } else { 1 };
+    let reps = if thorough { 10 } else { 3 };
     for rep in 0..reps {
         // frustrated triangle, equal couplings
         v.push(Model { name: "triangle", nvars: 3, edges: vec![((0, 1), 1.0), ((1, 2), 1.0), ((0, 2), 1.0)], gamma: *g.pick(&gammas), h: 0.0, beta: *g.pick(&betas) });
@@ -856,6 +864,9 @@ fn models(g: &mut SplitMix64, thorough: bool) -> Vec<Model> {
             e.push(((n - 2, n - 1), 1.0));
         }
         v.push(Model { name: "random", nvars: n, edges: e, gamma: *g.pick(&gammas), h: *g.pick(&hs), beta: *g.pick(&betas) });
+        // strong frustrated pair + weak third bond at low temperature: long runs of rotatable operators
+        // with ratio 1/16 each, so products underflow f64::EPSILON inside the sweep (F19 regression)
+        v.push(Model { name: "underflow", nvars: 3, edges: vec![((0, 1), 2.0), ((0, 2), 2.0), ((1, 2), 0.125)], gamma: 0.5, h: 0.0, beta: 4.0 });
         // weak transverse field: few constant operators, idle variables occur
         v.push(Model { name: "weak_gamma", nvars: 4, edges: vec![((0, 1), 1.0), ((1, 2), 1.0), ((2, 3), 1.0), ((0, 3), 1.0), ((0, 2), 0.5)], gamma: 0.125, h: 0.0, beta: *g.pick(&betas) });
     }
@@ -865,7 +876,7 @@ fn models(g: &mut SplitMix64, thorough: bool) -> Vec<Model> {
 fn rvb_mode(a: &Args) {
     let mut gen = SplitMix64::new(a.seed ^ 0x3C03);
     let mut stats = std::collections::BTreeMap::new();
-    let per_model = if a.thorough { 60 } else { 30 };
+    let per_model = if a.thorough { 80 } else { 40 };
     for (mi, m) in models(&mut gen, a.thorough).into_iter().enumerate() {
         let rng = Shared(Rc::new(RefCell::new(RecRng::new(a.seed.wrapping_mul(1000).wrapping_add(mi as u64)))));
         let state: Vec<bool> = (0..m.nvars).map(|_| gen.coin()).collect();
@@ -876,17 +887,27 @@ fn rvb_mode(a: &Args) {
         if gen.chance(1, 3) {
             g.set_enable_heatbath(true);
         }
-        g.timesteps(20, m.beta);
+        if let Err(msg) = catch(std::panic::AssertUnwindSafe(|| g.timesteps(20, m.beta))) {
+            emit(true, &format!("thermalise {} {}", m.name, mi), "ok", Some(Err(format!("timesteps with RVB panicked: {}", msg))));
+            continue;
+        }
         let _ = take_trace();
         let mut alive = true;
+        let per_model = if m.name == "underflow" { per_model * 15 } else { per_model };
         for i in 0..per_model {
             if !alive {
                 break;
             }
             if i % 3 == 0 {
-                g.single_diagonal_step(m.beta);
-                if gen.coin() {
-                    g.single_cluster_step();
+                let do_cluster = gen.coin();
+                if let Err(msg) = catch(std::panic::AssertUnwindSafe(|| {
+                    g.single_diagonal_step(m.beta);
+                    if do_cluster {
+                        g.single_cluster_step();
+                    }
+                })) {
+                    emit(true, &format!("thermalise {} {}", m.name, mi), "ok", Some(Err(format!("diagonal/cluster step after RVB updates panicked: {}", msg))));
+                    break;
                 }
             }
             alive = observe(&mut g, &rng, &m, &mut stats);
@@ -934,6 +955,7 @@ fn rvb_mode(a: &Args) {
         stat(&k, v);
     }
 }
+
 
 fn main() {
     let a = args();
